@@ -167,6 +167,11 @@ def handle (st : St) (line : String) : St × String :=
           let d ← parseDoc (← j.getObjVal? "doc")
           let t ← parseRType (← j.getObjVal? "rtype")
           pure (st, showDoc (renameMapKeys t d))
+        | "rename2" => do
+          -- the repaired `renameMapKeys`: embedded structs, structs inside slices / arrays / maps
+          let d ← parseDoc (← j.getObjVal? "doc")
+          let t ← parseRT (← j.getObjVal? "rt")
+          pure (st, showDoc (U2.renameMapKeys t d))
         | "rempty" => do
           let r ← parseRange (← j.getObjVal? "r")
           pure (st, if r.isEmpty then "1" else "0")
